@@ -101,6 +101,81 @@ pub enum Exposure {
 }
 
 /// compare everything the API exposes of an accepted message with the reference decoding
+/// "iteration" is whatever a caller can do with the iterator, not only a `for` loop: every other
+/// way of consuming `iter_attributes()` (positional access, skipping, stepping, counting, folding,
+/// resuming after a positional access) must show exactly the attributes that repeated `next()` shows
+pub fn iterator_protocol(msg: &Message, got: &[RawAttribute], limit: usize) -> Result<(), String> {
+    let key = |a: &RawAttribute| (a.get_type().value(), a.value.to_vec());
+    let want: Vec<(u16, Vec<u8>)> = got.iter().map(key).collect();
+    let n = want.len();
+    let show = |v: &[(u16, Vec<u8>)]| v.iter().map(|a| format!("{:#06x}[{}]", a.0, a.1.len())).collect::<Vec<_>>().join(",");
+    // positions to probe: all of them for short lists, both ends for long ones
+    let mut ks: Vec<usize> = (0..=n.min(10)).collect();
+    ks.extend(n.saturating_sub(3)..=n + 1);
+    ks.sort();
+    ks.dedup();
+    for &k in &ks {
+        let nth = msg.iter_attributes().nth(k).map(|a| key(&a));
+        if nth.as_ref() != want.get(k) {
+            return Err(format!(
+                "iter_attributes().nth({}) gives {:?} but stepping with next() shows [{}]",
+                k,
+                nth.map(|a| format!("{:#06x}[{}]", a.0, a.1.len())),
+                show(&want)
+            ));
+        }
+        let skipped: Vec<(u16, Vec<u8>)> = msg.iter_attributes().skip(k).take(limit + 1).map(|a| key(&a)).collect();
+        if skipped[..] != want[k.min(n)..] {
+            return Err(format!("iter_attributes().skip({}) shows [{}] but stepping with next() shows [{}]", k, show(&skipped), show(&want)));
+        }
+        // resuming after a positional access
+        let mut it = msg.iter_attributes();
+        let _ = it.nth(k);
+        let rest: Vec<(u16, Vec<u8>)> = it.take(limit + 1).map(|a| key(&a)).collect();
+        if rest[..] != want[(k + 1).min(n)..] {
+            return Err(format!("after nth({}) the iterator continues with [{}] but stepping with next() shows [{}]", k, show(&rest), show(&want)));
+        }
+    }
+    for step in [2usize, 3, 5] {
+        let stepped: Vec<(u16, Vec<u8>)> = msg.iter_attributes().take(limit + 1).step_by(step).map(|a| key(&a)).collect();
+        let expect: Vec<(u16, Vec<u8>)> = want.iter().step_by(step).cloned().collect();
+        if stepped != expect {
+            return Err(format!("iter_attributes().step_by({}) shows [{}] but stepping with next() shows [{}]", step, show(&stepped), show(&want)));
+        }
+        let stepped: Vec<(u16, Vec<u8>)> = msg.iter_attributes().step_by(step).take(limit + 1).map(|a| key(&a)).collect();
+        if stepped != expect {
+            return Err(format!("iter_attributes().step_by({}) shows [{}] but stepping with next() shows [{}]", step, show(&stepped), show(&want)));
+        }
+    }
+    if n <= limit {
+        let count = msg.iter_attributes().count();
+        let last = msg.iter_attributes().last().map(|a| key(&a));
+        let folded = msg.iter_attributes().fold(0usize, |c, _| c + 1);
+        let mut each = 0usize;
+        msg.iter_attributes().for_each(|_| each += 1);
+        let (lo, hi) = msg.iter_attributes().size_hint();
+        if count != n || folded != n || each != n || last.as_ref() != want.last() || lo > n || hi.map_or(false, |h| h < n) {
+            return Err(format!(
+                "count() = {}, fold = {}, for_each = {}, last() type {:?}, size_hint = ({}, {:?}) but stepping with next() shows {} attributes [{}]",
+                count,
+                folded,
+                each,
+                last.map(|a| a.0),
+                lo,
+                hi,
+                n,
+                show(&want)
+            ));
+        }
+        let found = msg.iter_attributes().position(|a| Some(key(&a)) == want.last().cloned());
+        let expect = want.iter().position(|a| Some(a) == want.last());
+        if found != expect {
+            return Err(format!("position() of the last attribute gives {:?}, expected {:?} in [{}]", found, expect, show(&want)));
+        }
+    }
+    Ok(())
+}
+
 pub fn compare_accepted(msg: &Message, bytes: &[u8], r: &RefMsg, sigp: &str, mode: Exposure) -> TestResult {
     let sig = |s: &str| format!("{}-{}", sigp, s);
     ensure!(
@@ -146,6 +221,7 @@ pub fn compare_accepted(msg: &Message, bytes: &[u8], r: &RefMsg, sigp: &str, mod
         show_want(),
         if mode == Exposure::Exact { " and nothing else" } else { " (in this order, first)" }
     );
+    iterator_protocol(msg, &got, limit).map_err(|m| Fail::new(&sig("attrs"), m))?;
     if mode == Exposure::Faithful {
         // anything exposed beyond the prescribed part must be attributes of the buffer, in buffer order
         let mut cursor = want.len();
